@@ -380,6 +380,186 @@ Theorem mid_bound_tight :
   in_i64 x /\ in_i64 y /\ midpoint x y = min_i64 /\ midpoint x y < Z.min x y.
 Proof. vm_compute. repeat split; congruence. Qed.
 
+(* ---------- containment for EVERY choice of the arbitrary positions ---------- *)
+Lemma fold_min_in d l : In (fold_right Z.min d l) (d :: l).
+Proof.
+  induction l as [|y r IH]; cbn [fold_right]; [left; reflexivity|].
+  destruct (Z.min_spec y (fold_right Z.min d r)) as [[_ ->]|[_ ->]]; [right; left; reflexivity|].
+  destruct IH as [IH|IH]; [left; exact IH|right; right; exact IH].
+Qed.
+Lemma fold_max_in d l : In (fold_right Z.max d l) (d :: l).
+Proof.
+  induction l as [|y r IH]; cbn [fold_right]; [left; reflexivity|].
+  destruct (Z.max_spec y (fold_right Z.max d r)) as [[_ ->]|[_ ->]]; [|right; left; reflexivity].
+  destruct IH as [IH|IH]; [left; exact IH|right; right; exact IH].
+Qed.
+Lemma lmin_in l : l <> [] -> In (lmin l) l.
+Proof.
+  destruct l as [|x r]; [congruence|]. intros _. unfold lmin. cbn [hd].
+  destruct (fold_min_in x (x :: r)) as [H|H]; [rewrite <- H; left; reflexivity|exact H].
+Qed.
+Lemma lmax_in l : l <> [] -> In (lmax l) l.
+Proof.
+  destruct l as [|x r]; [congruence|]. intros _. unfold lmax. cbn [hd].
+  destruct (fold_max_in x (x :: r)) as [H|H]; [rewrite <- H; left; reflexivity|exact H].
+Qed.
+
+Lemma goods_In l v : In v (goods l) -> In (v, true) l.
+Proof.
+  unfold goods. intros H. apply in_map_iff in H. destruct H as [[w b] [H1 H2]].
+  apply filter_In in H2. destruct H2 as [H2 H3]. cbn in H1, H3. subst. exact H2.
+Qed.
+
+Lemma nbad_cons x b r : nbad ((x, b) :: r) = ((if b then 0 else 1) + nbad r)%nat.
+Proof. unfold nbad. cbn [filter snd negb]. destruct b; reflexivity. Qed.
+
+Lemma tagi_fst p i s : map fst (tagi p i s) = s.
+Proof. revert i. induction s as [|x r IH]; intros i; cbn [tagi map fst]; [reflexivity|]. rewrite IH. reflexivity. Qed.
+
+Lemma tagi_in p i s v b : In (v, b) (tagi p i s) ->
+  exists j, (j < length s)%nat /\ nth j s 0 = v /\ b = p (i + j)%nat.
+Proof.
+  revert i. induction s as [|x r IH]; intros i; cbn [tagi In length]; [intros []|].
+  intros [H|H].
+  - inversion H; subst. exists 0%nat. cbn [nth]. rewrite Nat.add_0_r. repeat split. lia.
+  - destruct (IH _ H) as [j [H1 [H2 H3]]]. exists (S j). cbn [nth]. repeat split; [lia|exact H2|].
+    rewrite H3. f_equal. lia.
+Qed.
+
+Lemma nbad_tagi_lo f i s : nbad (tagi (fun j => Nat.leb f j) i s) = Nat.min (f - i) (length s).
+Proof.
+  revert i. induction s as [|x r IH]; intros i; cbn [tagi length]; [unfold nbad; cbn; lia|].
+  rewrite nbad_cons, IH. destruct (Nat.leb_spec f i); lia.
+Qed.
+
+Lemma nbad_tagi_hi k i s : nbad (tagi (fun j => Nat.ltb j k) i s) = ((i + length s) - Nat.max i k)%nat.
+Proof.
+  revert i. induction s as [|x r IH]; intros i; cbn [tagi length]; [unfold nbad; cbn; lia|].
+  rewrite nbad_cons, IH. destruct (Nat.ltb_spec i k); lia.
+Qed.
+
+Lemma div3_two n : (1 <= n)%nat -> (2 * ((n - 1) / 3) < n)%nat.
+Proof.
+  intros H. pose proof (Nat.div_mod (n - 1) 3 ltac:(discriminate)) as Hdm.
+  pose proof (Nat.mod_upper_bound (n - 1) 3 ltac:(discriminate)). lia.
+Qed.
+
+(* a result is within the range of the remaining values for EVERY choice of at most f = (n-1)/3 arbitrary
+   positions iff it lies between the (f+1)-th smallest and the (f+1)-th largest value *)
+Theorem ftm_every_choice_iff (l : list Z) res : l <> [] ->
+  let n := length l in let f := ((n - 1) / 3)%nat in
+  nth f (zsort l) 0 <= res <= nth (n - 1 - f) (zsort l) 0 <-> contained_for_every_choice l res.
+Proof.
+  intros Hne n f.
+  assert (Hn : (1 <= n)%nat) by (unfold n; destruct l; [congruence|cbn [length]; lia]).
+  pose proof (div3_two n Hn) as Hf. fold f in Hf.
+  set (s := zsort l).
+  assert (Hp : Permutation l s) by apply isort_perm.
+  assert (Hs : zsorted s) by apply isort_sorted.
+  assert (Hls : length s = n) by apply isort_length.
+  split.
+  - (* every choice leaves a correct value among the f+1 smallest and among the f+1 largest *)
+    intros [Hlo Hhi] tl Htl Hb. fold n f in Hb.
+    set (s' := isort fst tl).
+    assert (Hp' : Permutation tl s') by apply isort_perm.
+    assert (Hs' : sorted_by fst s') by apply isort_sorted.
+    assert (Hms : map fst s' = s) by (unfold s', s; rewrite <- Htl; apply isort_map).
+    assert (Hls' : length s' = n) by (rewrite <- Hls, <- Hms, map_length; reflexivity).
+    destruct (trimmed_bracketed s' (0, true) f Hs') as [[g1 [G1 [G2 G3]]] [g2 [G4 [G5 G6]]]].
+    { rewrite <- (nbad_perm _ _ Hp'). exact Hb. }
+    { rewrite Hls'. exact Hf. }
+    rewrite Hls' in G6.
+    rewrite <- !map_nth_fst in G3, G6 by lia. rewrite Hms in G3, G6.
+    assert (I1 : In (fst g1) (goods tl)).
+    { apply In_goods. apply (Permutation_in _ (Permutation_sym Hp')). destruct g1 as [v b]; cbn in *; subst b; exact G1. }
+    assert (I2 : In (fst g2) (goods tl)).
+    { apply In_goods. apply (Permutation_in _ (Permutation_sym Hp')). destruct g2 as [v b]; cbn in *; subst b; exact G4. }
+    pose proof (lmin_le _ _ I1). pose proof (lmax_ge _ _ I2). lia.
+  - (* conversely: declare the f smallest (resp. the f largest) arbitrary *)
+    intros H. split.
+    + set (ts := tagi (fun j => Nat.leb f j) 0 s).
+      assert (Hpm : Permutation l (map fst ts)) by (unfold ts; rewrite tagi_fst; exact Hp).
+      destruct (Permutation_map_inv _ _ Hpm) as [tl [Hl Hpt]].
+      assert (Hnb : (nbad tl <= f)%nat).
+      { rewrite <- (nbad_perm _ _ Hpt). unfold ts. rewrite nbad_tagi_lo. lia. }
+      assert (Hlen : length tl = n) by (unfold n; rewrite Hl, map_length; reflexivity).
+      specialize (H tl (eq_sym Hl)). fold n f in H. specialize (H Hnb).
+      destruct (exists_good tl) as [g [Hg1 Hg2]]; [lia|].
+      assert (Hgne : goods tl <> []).
+      { intros E. assert (I : In (fst g) (goods tl)) by (apply In_goods; destruct g as [v b]; cbn in *; subst b; exact Hg1).
+        rewrite E in I. destruct I. }
+      pose proof (goods_In _ _ (lmin_in _ Hgne)) as Hm.
+      apply (Permutation_in _ (Permutation_sym Hpt)) in Hm. unfold ts in Hm.
+      destruct (tagi_in _ _ _ _ _ Hm) as [j [J1 [J2 J3]]]. cbn [Nat.add] in J3.
+      symmetry in J3. apply Nat.leb_le in J3.
+      pose proof (sorted_nth_le s 0 f j Hs ltac:(lia)). lia.
+    + set (ts := tagi (fun j => Nat.ltb j (n - f)) 0 s).
+      assert (Hpm : Permutation l (map fst ts)) by (unfold ts; rewrite tagi_fst; exact Hp).
+      destruct (Permutation_map_inv _ _ Hpm) as [tl [Hl Hpt]].
+      assert (Hnb : (nbad tl <= f)%nat).
+      { rewrite <- (nbad_perm _ _ Hpt). unfold ts. rewrite nbad_tagi_hi. lia. }
+      assert (Hlen : length tl = n) by (unfold n; rewrite Hl, map_length; reflexivity).
+      specialize (H tl (eq_sym Hl)). fold n f in H. specialize (H Hnb).
+      destruct (exists_good tl) as [g [Hg1 Hg2]]; [lia|].
+      assert (Hgne : goods tl <> []).
+      { intros E. assert (I : In (fst g) (goods tl)) by (apply In_goods; destruct g as [v b]; cbn in *; subst b; exact Hg1).
+        rewrite E in I. destruct I. }
+      pose proof (goods_In _ _ (lmax_in _ Hgne)) as Hm.
+      apply (Permutation_in _ (Permutation_sym Hpt)) in Hm. unfold ts in Hm.
+      destruct (tagi_in _ _ _ _ _ Hm) as [j [J1 [J2 J3]]]. cbn [Nat.add] in J3.
+      symmetry in J3. apply Nat.ltb_lt in J3.
+      pose proof (sorted_nth_le s 0 j (n - 1 - f) Hs ltac:(lia)). lia.
+Qed.
+
+(* the oracle accepts exactly that (for inputs within the property's bound) *)
+Theorem ftm_strong_ok_iff l res : l <> [] -> (forall x, In x l -> Z.abs x < 2^62) ->
+  C02_ftm_strong_ok l res = true <-> contained_for_every_choice l res.
+Proof.
+  intros Hne Hb. rewrite <- (ftm_every_choice_iff l res Hne). unfold C02_ftm_strong_ok.
+  assert (E1 : Nat.leb 1 (length l) = true) by (apply Nat.leb_le; destruct l; [congruence|cbn [length]; lia]).
+  assert (E2 : forallb (fun x => Z.abs x <? 2^62) l = true).
+  { apply forallb_forall. intros x Hx. apply Z.ltb_lt. apply Hb. exact Hx. }
+  rewrite E1, E2. cbn [andb]. rewrite andb_true_iff, !Z.leb_le. reflexivity.
+Qed.
+
+(* and the model passes it on all inputs *)
+Theorem ftm_strong_oracle l res : ftm l = Some res -> C02_ftm_strong_ok l res = true.
+Proof.
+  intros Hr. unfold C02_ftm_strong_ok.
+  destruct (Nat.leb 1 (length l) && forallb (fun x => Z.abs x <? 2 ^ 62) l) eqn:E; [|reflexivity].
+  apply andb_prop in E. destruct E as [E1 E3]. apply Nat.leb_le in E1.
+  assert (Hne : l <> []) by (destruct l; [cbn in E1; lia|discriminate]).
+  assert (Hbd : forall x, In x l -> bounded x).
+  { intros x Hx. rewrite forallb_forall in E3. specialize (E3 x Hx). unfold bounded. lia. }
+  assert (Hres : res = ftm_sorted (zsort l)) by (destruct l; [congruence|unfold ftm in Hr; inversion Hr; reflexivity]).
+  subst res. clear Hr. set (s := zsort l).
+  assert (Hp : Permutation l s) by apply isort_perm.
+  assert (Hs : zsorted s) by apply isort_sorted.
+  assert (Hls : length s = length l) by apply isort_length.
+  pose proof (div3_two (length l) E1) as Hf.
+  unfold ftm_sorted. rewrite Hls. set (f := ((length l - 1) / 3)%nat) in *.
+  assert (B1 : bounded (nth f s 0)) by (apply Hbd, (Permutation_in _ (Permutation_sym Hp)), nth_In; lia).
+  assert (B2 : bounded (nth (length l - 1 - f) s 0)) by (apply Hbd, (Permutation_in _ (Permutation_sym Hp)), nth_In; lia).
+  pose proof (sorted_nth_le s 0 f (length l - 1 - f) Hs ltac:(lia)) as Hle.
+  pose proof (midpoint_between _ _ B1 B2 Hle).
+  apply andb_true_intro. split; apply Z.leb_le; lia.
+Qed.
+
+(* it implies the check against any one designated set *)
+Theorem ftm_strong_implies_designated tl res :
+  C02_ftm_strong_ok (map fst tl) res = true -> C02_ftm_ok tl res = true.
+Proof.
+  intros H. unfold C02_ftm_ok.
+  destruct (Nat.leb 1 (length tl) && Nat.leb (nbad tl) ((length tl - 1) / 3) && forallb (fun x => Z.abs (fst x) <? 2 ^ 62) tl) eqn:E; [|reflexivity].
+  apply andb_prop in E. destruct E as [E E3]. apply andb_prop in E. destruct E as [E1 E2].
+  apply Nat.leb_le in E1, E2.
+  assert (Hne : map fst tl <> []) by (destruct tl; [cbn in E1; lia|discriminate]).
+  assert (Hbd : forall x, In x (map fst tl) -> Z.abs x < 2^62).
+  { intros x Hx. apply in_map_iff in Hx. destruct Hx as [y [<- Hy]]. rewrite forallb_forall in E3. specialize (E3 y Hy). lia. }
+  apply (ftm_strong_ok_iff _ _ Hne Hbd) in H. specialize (H tl eq_refl). rewrite map_length in H. specialize (H E2).
+  apply andb_true_intro. split; apply Z.leb_le; lia.
+Qed.
+
 (* ---------- measurements: for EVERY sorted permutation the unstable sort may leave behind ---------- *)
 Definition all_wf (ms : list tmeas) : Prop := forall m, In m ms -> gt_wf (tm_ts m).
 
@@ -478,14 +658,14 @@ Proof.
 Qed.
 
 (* the whole measurement oracle holds for the model, on all inputs and for every tie order *)
-Theorem meas_ftm_oracle tagged ms s : ms <> [] -> all_wf ms -> tm_sorted_perm ms s ->
-  map fst tagged = map tm_off ms -> C02_meas_ftm_ok tagged ms (tftm_sorted s) s = true.
+Theorem meas_ftm_oracle ms s : ms <> [] -> all_wf ms -> tm_sorted_perm ms s ->
+  C02_meas_ftm_ok ms (tftm_sorted s) s = true.
 Proof.
-  intros Hne Hw Hsp Ht. pose proof (all_wf_perm _ _ (proj1 Hsp) Hw) as Hws.
+  intros Hne Hw Hsp. pose proof (all_wf_perm _ _ (proj1 Hsp) Hw) as Hws.
   unfold C02_meas_ftm_ok.
   rewrite (proj2 (reorder_m_ok_iff ms s) Hsp).
   destruct (tmeas_ftm_offset ms s Hsp Hne) as [Ho He]. rewrite He. cbn [negb andb].
-  rewrite <- Ht in Ho. rewrite (ftm_oracle tagged _ Ho). rewrite andb_true_r.
+  rewrite (ftm_strong_oracle _ _ Ho). rewrite andb_true_r.
   unfold tftm_sorted, sel_ftm. apply ts_oracle; apply nth_wf; exact Hws.
 Qed.
 
@@ -548,3 +728,86 @@ Qed.
 
 Lemma gt_zero_unix : gt_of_unix (-62135596800 * 1000000000) = gt_zero.
 Proof. reflexivity. Qed.
+
+(* ---------- independence of the order of the inputs, measurements ---------- *)
+Lemma sorted_by_perm_unique (s s' : list tmeas) :
+  sorted_by tm_off s -> sorted_by tm_off s' -> Permutation s s' -> NoDup (map tm_off s) -> s = s'.
+Proof.
+  unfold sorted_by. intros Hs. revert s'. induction Hs as [|x r Hs IH Hall]; intros s' Hs' Hp Hnd.
+  - apply Permutation_nil in Hp. subst. reflexivity.
+  - destruct s' as [|y r']; [apply Permutation_sym, Permutation_nil in Hp; discriminate|].
+    inversion Hs' as [|? ? Hs'' Hall']; subst.
+    rewrite Forall_forall in Hall, Hall'.
+    cbn [map] in Hnd. inversion Hnd as [|? ? Hnin Hnd']; subst.
+    assert (Hxy : x = y).
+    { assert (Hx : In x (y :: r')) by (apply (Permutation_in _ Hp); left; reflexivity).
+      assert (Hy : In y (x :: r)) by (apply (Permutation_in _ (Permutation_sym Hp)); left; reflexivity).
+      destruct Hx as [->|Hx]; [reflexivity|]. destruct Hy as [->|Hy]; [reflexivity|].
+      specialize (Hall y Hy). specialize (Hall' x Hx).
+      exfalso. apply Hnin. replace (tm_off x) with (tm_off y) by lia. apply in_map. exact Hy. }
+    subst y. f_equal. apply IH; [assumption| |exact Hnd']. eapply Permutation_cons_inv. exact Hp.
+Qed.
+
+(* with pairwise distinct offsets the slice after the call, hence the whole result (timestamp included),
+   does not depend on the order of the inputs nor on the sort *)
+Theorem meas_order_independent ms ms' s s' :
+  Permutation ms ms' -> NoDup (map tm_off ms) -> tm_sorted_perm ms s -> tm_sorted_perm ms' s' ->
+  s = s' /\ tftm_sorted s = tftm_sorted s' /\ tmedian_sorted s = tmedian_sorted s'.
+Proof.
+  intros Hp Hnd [Hp1 Hs1] [Hp2 Hs2].
+  assert (E : s = s').
+  { apply sorted_by_perm_unique; [exact Hs1|exact Hs2| |].
+    - eapply Permutation_trans; [apply Permutation_sym; exact Hp1|]. eapply Permutation_trans; [exact Hp|exact Hp2].
+    - apply (Permutation_NoDup (l := map tm_off ms)); [apply Permutation_map; exact Hp1|exact Hnd]. }
+  subst s'. repeat split; reflexivity.
+Qed.
+
+(* with tied offsets it does: the same three measurements (equal offsets, timestamps 1 s, 2 s, 3 s) in two
+   orders that are both sorted give different combined timestamps - for the fault-tolerant midpoint and for the
+   median - while offset and error agree.  Taken literally ("both are independent of the order of the inputs")
+   the property is not satisfiable for the timestamp by any function of the sorted slice. *)
+Theorem meas_tie_order_refuted :
+  let a := {| tm_ts := {| gt_sec := 1; gt_nsec := 0 |}; tm_off := 0; tm_err := false |} in
+  let b := {| tm_ts := {| gt_sec := 2; gt_nsec := 0 |}; tm_off := 0; tm_err := false |} in
+  let c := {| tm_ts := {| gt_sec := 3; gt_nsec := 0 |}; tm_off := 0; tm_err := false |} in
+  let ms := [a; b; c] in let s := [a; b; c] in let s' := [a; c; b] in
+  all_wf ms /\ tm_sorted_perm ms s /\ tm_sorted_perm ms s' /\
+  tm_off (tftm_sorted s) = tm_off (tftm_sorted s') /\
+  tm_ts (tftm_sorted s) = {| gt_sec := 2; gt_nsec := 0 |} /\ tm_ts (tftm_sorted s') = {| gt_sec := 1; gt_nsec := 500000000 |} /\
+  tm_ts (tmedian_sorted s) = {| gt_sec := 2; gt_nsec := 0 |} /\ tm_ts (tmedian_sorted s') = {| gt_sec := 3; gt_nsec := 0 |} /\
+  C02_meas_perm_strict_ok (tftm_sorted s) (tftm_sorted s') = false.
+Proof.
+  cbv zeta. split; [|split; [|split]].
+  - intros m [<-|[<-|[<-|[]]]]; unfold gt_wf; cbn [tm_ts gt_sec gt_nsec]; consts; lia.
+  - split; [apply Permutation_refl|]. unfold sorted_by. repeat constructor; cbn; lia.
+  - split; [apply perm_skip, perm_swap|]. unfold sorted_by. repeat constructor; cbn; lia.
+  - vm_compute. repeat split; reflexivity.
+Qed.
+
+Lemma nodupb_sound l : nodupb l = true -> NoDup l.
+Proof.
+  induction l as [|x r IH]; [constructor|]. cbn [nodupb]. intros H. apply andb_prop in H. destruct H as [H1 H2].
+  constructor; [|apply IH; exact H2].
+  intros Hin. apply negb_true_iff in H1. assert (E : existsb (Z.eqb x) r = true).
+  { apply existsb_exists. exists x. split; [exact Hin|apply Z.eqb_refl]. }
+  congruence.
+Qed.
+
+(* the order-independence oracle holds for the model: every input order, every tie order *)
+Theorem meas_perm_oracle ms ms' s s' : ms <> [] ->
+  Permutation ms ms' -> tm_sorted_perm ms s -> tm_sorted_perm ms' s' ->
+  C02_meas_perm_ok ms (tftm_sorted s) (tftm_sorted s') = true /\
+  C02_meas_perm_ok ms (tmedian_sorted s) (tmedian_sorted s') = true.
+Proof.
+  intros Hne Hp Hs Hs'.
+  assert (Hne' : ms' <> []) by (intros E; subst; apply Permutation_sym, Permutation_nil in Hp; congruence).
+  destruct (tmeas_ftm_offset ms s Hs Hne) as [F1 G1]. destruct (tmeas_ftm_offset ms' s' Hs' Hne') as [F2 G2].
+  destruct (tmeas_median_offset ms s Hs Hne) as [M1 N1]. destruct (tmeas_median_offset ms' s' Hs' Hne') as [M2 N2].
+  destruct (perm_invariant _ _ (Permutation_map tm_off Hp)) as [PF PM].
+  assert (F : tm_off (tftm_sorted s) = tm_off (tftm_sorted s')) by congruence.
+  assert (M : tm_off (tmedian_sorted s) = tm_off (tmedian_sorted s')) by congruence.
+  unfold C02_meas_perm_ok. rewrite G1, G2, N1, N2, F, M, !Z.eqb_refl. cbn [negb andb].
+  destruct (nodupb (map tm_off ms)) eqn:E; [|split; reflexivity].
+  destruct (meas_order_independent ms ms' s s' Hp (nodupb_sound _ E) Hs Hs') as [_ [-> ->]].
+  split; apply gt_eqb_eq; reflexivity.
+Qed.
